@@ -167,6 +167,31 @@ def rule_term_kernels(ctx: Ctx, which: Optional[List[str]] = None, rule: str = "
             k_isolate_combination,
         )
 
+    if on("accessors"):
+        def k_accessors():
+            ta = TermAlg(prog)
+            t = ta.term([x, y], "a")
+            if not _eq(ta.method(t, "get_coefficient", [x]), sym("a_x")):
+                return "get_coefficient of a present variable is not its coefficient"
+            r0 = ta.method(t, "get_coefficient", [z])
+            if not (isinstance(r0, Rat) and r0.is_zero()):
+                return "get_coefficient of an absent variable is not 0"
+            if ta.method(t, "contains_var", [x]) is not True or ta.method(t, "contains_var", [z]) is not False:
+                return "contains_var is wrong for a present / an absent variable"
+            vs = ta.call(prog.func(PT + ".vars"), [], {}, self_val=t)
+            if [k.name for k in vs.items] != ["x", "y"]:
+                return ".vars is not the list of variables with a coefficient"
+            c = Rec("PolyhedralTerm", {"variables": DictV({x: num(2), y: num(-3)}), "constant": num(1)})
+            got = (ta.method(c, "get_sign", [x]), ta.method(c, "get_sign", [y]))
+            if not (_eq(got[0], num(1)) and _eq(got[1], num(-1))):
+                return "get_sign of coefficients 2, -3 is %s" % [g.show() if isinstance(g, Rat) else g for g in got]
+            pol = (ta.method(c, "get_polarity", [x, True]), ta.method(c, "get_polarity", [y, True]), ta.method(c, "get_polarity", [y, False]), ta.method(c, "get_polarity", [x, False]))
+            if pol != (True, False, True, False):
+                return "get_polarity(2,+), (-3,+), (-3,-), (2,-) gives %s" % (pol,)
+            return None
+
+        _run(ctx, rule, PT + ".get_coefficient", "accessors: get_coefficient / contains_var / vars / get_sign / get_polarity follow the stored coefficients", k_accessors)
+
     if on("symbolic"):
         def k_sym_roundtrip():
             ta = TermAlg(prog)
